@@ -205,6 +205,11 @@ def build_wall(case):
     if case["route"] == "hyperplane":
         if shape == ():
             data = vs[0].copy()
+            if case.get("line") == "geodesic":
+                # the normal handed over as the object the library itself uses for it
+                data = hyperbolic.DualPoint(data)
+            elif case.get("line") == "segment":
+                data = hyperbolic.Hyperplane(data).spacelike_complement()
         else:
             data = np.array(vs).reshape(shape + (1, n + 1)).copy()
         obj = hyperbolic.Hyperplane(data)
@@ -283,6 +288,9 @@ def body_reflection(case, ctx):
     label_case(ctx, case, case["units"], ["route=" + case["route"]])
     if case["route"] == "subspace" and n == 2:
         ctx.label("line=" + case.get("line", "subspace"))
+    if case["route"] == "hyperplane" and shape == () and \
+            case.get("line") in ("geodesic", "segment"):
+        ctx.label("normal-as-DualPoint-object")
     if case["route"] == "subspace":
         # a wall through the origin of the ball has no Poincare sphere; the Subspace route
         # derives its normal from that sphere
@@ -409,7 +417,7 @@ def body_from_reflection(case, ctx):
 # ---------------------------------------------------------------------------
 # law 3
 NONREFL = ["rotation", "loxodromic", "two_reflections", "rotoreflection", "glide",
-           "point_reflection", "half_turn", "identity"]
+           "point_reflection", "half_turn", "identity", "point_reflection_negated"]
 
 
 @st.composite
@@ -469,6 +477,13 @@ def nonrefl_matrix(n, u):
         return np.array(Isometry.elliptic(n, D).matrix).T
     if k == "identity":
         return np.eye(n + 1)
+    if k == "point_reflection_negated":
+        # the same projective map as the point reflection, given by the representative
+        # diag(-1, 1, .., 1): an involution with the spectrum of a reflection, whose
+        # (-1)-eigenvector is timelike - the inversion in a point of H^n, not in a wall
+        D = np.eye(n + 1)
+        D[0, 0] = -1.0
+        return D
     raise HarnessError(k)
 
 
@@ -494,7 +509,9 @@ def body_nonreflection(case, ctx):
     data = np.array(mats).reshape(shape + (n + 1, n + 1))
     T = Isometry(data.copy(), column_vectors=True)
     # harness: none of the non-reflections has the spectrum (-1, 1, .., 1)
-    for m in mats[(1 if case["mix"] is not None else 0):]:
+    for m, u in list(zip(mats, case["units"]))[(1 if case["mix"] is not None else 0):]:
+        if u["kind"] == "point_reflection_negated":
+            continue
         ev = np.sort_complex(np.linalg.eigvals(m))
         want = np.ones(n + 1)
         want[0] = -1.0
